@@ -10,6 +10,7 @@ VERUS_UNITS = {
     'search_cw': 'charwise.rs child_index_unchecked / next_state_id_unchecked / next_state_id_leftmost_unchecked, CodeMapper::get, State accessors',
     'utf8': 'charwise/iter.rs CharWithEndOffsetIterator::next against the UTF-8 table: offsets, scalar values, unwrap_unchecked/from_u32_unchecked preconditions',
     'iter_cw': 'charwise/iter.rs next() of FindIterator, FindOverlappingIterator, FindOverlappingNoSuffixIterator against spec streams over the char-wise double array; laziness',
+    'ctor_bw': 'bytewise.rs all seven find_*/leftmost constructors, U8SliceIterator::{new,next} (next checked against vstd prophetic iterator laws with remaining() == unread slice bytes), MatchKind::{is_standard,is_leftmost}: documented match-kind panics, iterator invariants established from the automaton invariant, slice entry == iterator entry',
     'ctor_cw': 'charwise.rs find_*_iter_from_iter constructors + CharWithEndOffsetIterator::new: documented match-kind panics, establish the iterator invariants from the automaton invariant',
     'search_bw': 'bytewise.rs child_index_unchecked / next_state_id_unchecked / next_state_id_leftmost_unchecked, State accessors, intpack getters',
     'iter_bw': 'bytewise/iter.rs next() of the four iterators against spec streams over the double array; laziness; index safety',
@@ -49,7 +50,7 @@ PROPS = {
     'C06': dict(verus=['search_bw', 'iter_bw', 'search_cw', 'utf8', 'iter_cw', 'ser'], kani=['num_bytes_labels'], bounded=True,
                 chain='every returned Match is mk_match(outputs[opos-1], end) (P); outputs[j] == (value_i, |p_i|) (B)',
                 assumed=[NFA_ASSUMED, DA_ASSUMED]),
-    'C07': dict(verus=['search_bw', 'iter_bw', 'helper', 'build_bw', 'build_cw', 'search_cw', 'utf8', 'iter_cw', 'ctor_cw'], kani=['from_u32', 'utf8_decoder_two_chars'], bounded=True,
+    'C07': dict(verus=['search_bw', 'iter_bw', 'helper', 'build_bw', 'build_cw', 'search_cw', 'utf8', 'iter_cw', 'ctor_bw', 'ctor_cw'], kani=['from_u32', 'utf8_decoder_two_chars'], bounded=True,
                 chain='every get_unchecked in bytewise search/iterators is an index obligation under da_safe/da_ranked (P); build establishes them (B)',
                 assumed=[NFA_ASSUMED, DA_ASSUMED]),
     'C08': dict(verus=['search_cw', 'utf8', 'iter_cw'], kani=['num_bytes_labels', 'utf8_decoder_two_chars'], bounded=True, chain='char-wise iterators refine streams over their array with decoder end offsets (P: iter_cw, utf8; offsets fall on character boundaries; unmapped characters go to the root: search_cw); label byte lengths and decoder (K); equality of the two streams rests on AC correctness (B); char-wise leftmost iterator (str-based): B', assumed=[AC_ASSUMED]),
@@ -62,9 +63,9 @@ PROPS = {
     'C11': dict(verus=['search_bw', 'iter_bw', 'helper', 'build_bw', 'build_cw'], kani=[], bounded=True,
                 chain='search contracts depend on the array only through encodes (P side); build for every num_free_blocks (B)',
                 assumed=[NFA_ASSUMED, DA_ASSUMED]),
-    'C12': dict(verus=['iter_bw', 'utf8', 'iter_cw'], kani=['utf8_decoder_two_chars'], bounded=True,
-                chain='laziness postconditions of the three standard iterators, both variants (P): m.end == bytes pulled, source drained on None, pulls only via Enumerate::next; decoder pulls exactly the bytes of one character (P+K)', assumed=['slice/str entry points == iterator entry points over U8SliceIterator/StrIterator: constructors not yet under contract (B)']),
-    'C13': dict(verus=['search_bw', 'iter_bw', 'search_cw', 'utf8', 'iter_cw', 'ctor_cw'], kani=[], bounded=True,
+    'C12': dict(verus=['iter_bw', 'ctor_bw', 'utf8', 'iter_cw', 'ctor_cw'], kani=['utf8_decoder_two_chars'], bounded=True,
+                chain='laziness postconditions of the three standard iterators, both variants (P): m.end == bytes pulled, source drained on None, pulls only via Enumerate::next; decoder pulls exactly the bytes of one character (P+K)', assumed=['byte-wise: find_iter(h) is find_iter_from_iter over U8SliceIterator, whose remaining() == h (P: ctor_bw); char-wise str entry points over StrIterator: B', 'caller-supplied iterators obey vstd prophetic iterator laws (finite, deterministic)']),
+    'C13': dict(verus=['search_bw', 'iter_bw', 'search_cw', 'utf8', 'iter_cw', 'ctor_bw', 'ctor_cw'], kani=[], bounded=True,
                 chain='decreases rank in the transition loops, decreases |rest| in scanning loops (P); ranking exists (B)',
                 assumed=[NFA_ASSUMED, DA_ASSUMED]),
     'C15': dict(verus=[], kani=[], bounded=True, chain='B only so far', assumed=[]),
